@@ -445,7 +445,7 @@ def render(prog):
 _IDENT = re.compile(r"[A-Z][A-Z0-9_]*")
 
 
-def evolve(r, prog):
+def evolve(r, prog, pair_bias=0.0):
     """A new *version* of a program: changed default / condition / range / prompt
     condition, added or removed option (DESIGN.md 2.7)."""
     p = copy.deepcopy(prog)
@@ -457,6 +457,8 @@ def evolve(r, prog):
     for _ in range(nchg):
         k = r.choice(["default", "default", "default", "defcond", "range", "promptcond", "add", "remove", "remove", "choicedefault", "defaultpair",
                       "defaultpair"])
+        if r.random() < pair_bias:
+            k = "defaultpair"
         if k == "defaultpair":
             # both ends of a dependency change their default in the same upgrade (the dependent's stored default is
             # only meaningful under the stored default of what it depends on)
